@@ -14,7 +14,7 @@
    caller's parameter list -- is the explicit [opstate] returned by [do_op]. *)
 From Coq Require Import List NArith ZArith Bool.
 From HV Require Import Base.Res Base.Str Model.RemodelJson Gen.RemodelParams Model.Remodel
-  Proofs.RemodelProofs.
+  Proofs.RemodelProofs Proofs.RemodelMeaning.
 Import ListNotations.
 
 (* ======================= PART 1: the code as it now is ======================= *)
@@ -73,6 +73,168 @@ Theorem C17_reorder_columns_cells : forall fx order ig keep t st' t',
     column c t' = column c t.
 Proof. exact reorder_columns_cells. Qed.
 Print Assumptions C17_reorder_columns_cells.
+
+(* ---- factor_column (Proofs/RemodelMeaning.v).  Documented: one factor column
+   per value, named as given or <column>.<value>; values default to the distinct
+   non-n/a values in order of first appearance.  The result is the input table
+   with one appended 0/1 column per value: 1 where the cell, printed as text,
+   equals the value.  (An n/a cell prints as "nan" in the code: it is 0 for
+   every value but the literal "nan"; the documentation is silent on n/a.) ---- *)
+Theorem C17_factor_column_meaning : forall cn values names t i,
+  index_of cn (cols t) = Some i -> wfb t = true ->
+  let vs := factor_values_of i values t in
+  let ns := factor_names_of cn names vs in
+  length ns = length vs ->
+  NoDup (cols t ++ ns) ->
+  do_factor_column all_fixes cn values names t = Ok (factor_spec i vs ns t).
+Proof. exact factor_column_meaning. Qed.
+Print Assumptions C17_factor_column_meaning.
+
+Theorem C17_factor_old_columns : forall i vs ns t c,
+  rect t -> has_col t c = true -> column c (factor_spec i vs ns t) = column c t.
+Proof. exact factor_spec_old_column. Qed.
+Print Assumptions C17_factor_old_columns.
+
+Theorem C17_factor_new_column : forall i vs ns t k v n,
+  rect t -> NoDup (cols t ++ ns) -> length ns = length vs ->
+  nth_error vs k = Some v -> nth_error ns k = Some n ->
+  column n (factor_spec i vs ns t) = Some (map (fun r => flag v (get_cell i r)) (rows t)).
+Proof. exact factor_spec_new_column. Qed.
+Print Assumptions C17_factor_new_column.
+
+Theorem C17_factor_na_is_zero : forall v, v <> s_nan -> flag v CNa = CNum 0.
+Proof. exact flag_na. Qed.
+Print Assumptions C17_factor_na_is_zero.
+
+(* ---- remap_columns.  Per row (g maps each input row to its output row): source
+   cells become text (n/a -> "n/a"); destination cells take the values of the
+   FIRST map_list entry with the row's key, else n/a -- an error unless
+   ignore_missing; all other cells untouched; new destination columns appended
+   in the given order.  integer_sources has no effect inside the fragment. ---- *)
+Theorem C17_remap_columns_meaning : forall src dst ml ig ints t t',
+  wfb t = true -> NoDup (src ++ dst) ->
+  Forall (fun row => length row = length src + length dst) ml ->
+  do_remap_columns src dst ml ig ints t = Ok t' ->
+  cols t' = cols t ++ filter (fun d => negb (has_col t d)) dst /\
+  exists g, rows t' = map g (rows t) /\
+    (forall r, length r = length (cols t) ->
+       let found := map_find (length src) (map (fun c => src_str (cell_at t c r)) src) ml in
+       length (g r) = length (cols t') /\
+       (forall c, In c src -> cell_at t' c (g r) = CStr (src_str (cell_at t c r))) /\
+       (forall j d, nth_error dst j = Some d ->
+          cell_at t' d (g r) = match found with
+                               | Some vals => pval_cell (nth j vals (PStr s_na))
+                               | None => CStr s_na
+                               end) /\
+       (forall c, has_col t c = true -> ~ In c src -> ~ In c dst -> cell_at t' c (g r) = cell_at t c r)) /\
+    (ig = false -> forall r, In r (rows t) ->
+       map_find (length src) (map (fun c => src_str (cell_at t c r)) src) ml <> None).
+Proof. exact remap_columns_meaning. Qed.
+Print Assumptions C17_remap_columns_meaning.
+
+(* the entry found is the first one with that key *)
+Theorem C17_remap_first_wins : forall m key ml,
+  match map_find m key ml with
+  | Some vals => exists pre row post, ml = pre ++ row :: post /\ row_key m row = key /\ vals = skipn m row
+                                      /\ Forall (fun row' => row_key m row' <> key) pre
+  | None => Forall (fun row' => row_key m row' <> key) ml
+  end.
+Proof. exact map_find_spec. Qed.
+Print Assumptions C17_remap_first_wins.
+
+Theorem C17_remap_integer_sources : forall src dst ml ig ints t t',
+  do_remap_columns src dst ml ig ints t = Ok t' -> do_remap_columns src dst ml ig [] t = Ok t'.
+Proof. exact remap_integer_sources_irrelevant. Qed.
+Print Assumptions C17_remap_integer_sources.
+
+(* ---- merge_consecutive.  [merge_flags] marks a row iff it and the row before
+   it both have the event code in column_name and agree on column_name and all
+   present match columns (n/a = n/a): each maximal run collapses into its first
+   row.  The result is the table without the marked rows, order kept. ---- *)
+Theorem C17_merge_consecutive_meaning : forall cn code ig mc t t',
+  do_merge_consecutive all_fixes cn code false ig mc t = Ok t' ->
+  has_col t cn = true /\
+  (ig = false -> forall c, In c (match mc with Some l => l | None => [] end) -> has_col t c = true) /\
+  t' = {| cols := cols t; rows := filter_mask (map negb (merge_flags t cn code mc)) (rows t) |}.
+Proof. exact merge_consecutive_meaning. Qed.
+Print Assumptions C17_merge_consecutive_meaning.
+
+(* with set_durations ([upd]): a row followed by marked rows gets
+   duration = max end (onset + duration, n/a as 0) of itself and those rows,
+   minus its onset (n/a without onset); every other cell of every row is
+   untouched *)
+Theorem C17_merge_consecutive_durations : forall cn code ig mc t t',
+  do_merge_consecutive all_fixes cn code true ig mc t = Ok t' ->
+  col_all numeric_cell s_onset t = true -> col_all numeric_cell s_duration t = true ->
+  exists io id, index_of s_onset (cols t) = Some io /\ index_of s_duration (cols t) = Some id /\
+    has_col t cn = true /\
+    t' = {| cols := cols t;
+            rows := filter_mask (map negb (merge_flags t cn code mc))
+                                (upd io id (rows t) (merge_flags t cn code mc)) |}.
+Proof. exact merge_consecutive_durations_meaning. Qed.
+Print Assumptions C17_merge_consecutive_durations.
+
+Theorem C17_merge_durations_other_cells : forall io id rs fl,
+  length (upd io id rs fl) = length rs /\
+  forall k j, j <> id -> get_cell j (nth k (upd io id rs fl) []) = get_cell j (nth k rs []).
+Proof. exact upd_other_cells. Qed.
+Print Assumptions C17_merge_durations_other_cells.
+
+(* ---- split_rows ([split_spec]): parents (unless remove_parent_row) plus, per
+   new event and parent row whose new onset is a number, one row with
+   onset = parent onset + sources, duration = sum of sources, the anchor cell =
+   event name, copied columns from the parent and n/a elsewhere; the anchor
+   column is appended when missing; onset made numeric; sorted by onset. ---- *)
+Theorem C17_split_rows_meaning : forall anchor evs rp t t',
+  wfb t = true ->
+  do_split_rows all_fixes anchor evs rp t = Ok t' ->
+  exists io, index_of s_onset (cols t) = Some io /\ has_col t s_duration = true /\
+             t' = split_spec anchor evs rp t io.
+Proof. exact split_rows_meaning. Qed.
+Print Assumptions C17_split_rows_meaning.
+
+Theorem C17_split_child_cells : forall t out anchor name copy on du r j c,
+  nth_error out j = Some c ->
+  get_cell j (child_row t out anchor name copy on du r)
+  = if mem_str c copy then cell_at t c r
+    else if str_eqb c s_duration then num_cell du
+    else if str_eqb c anchor then CStr name
+    else if str_eqb c s_onset then num_cell on
+    else CNa.
+Proof. exact child_row_cell. Qed.
+Print Assumptions C17_split_child_cells.
+
+(* the sort is a permutation, puts the rows in onset order (no onset last) and
+   is STABLE: rows with equal onset keep their relative order *)
+Theorem C17_split_sort_permutation : forall io l, Permutation.Permutation (sort_rows io l) l.
+Proof. exact sort_rows_perm. Qed.
+Print Assumptions C17_split_sort_permutation.
+
+Theorem C17_split_sort_sorted : forall io l, rows_sorted io (sort_rows io l).
+Proof. exact sort_rows_sorted. Qed.
+Print Assumptions C17_split_sort_sorted.
+
+Theorem C17_split_sort_stable : forall io k l,
+  filter (same_key io k) (sort_rows io l) = filter (same_key io k) l.
+Proof. exact sort_rows_stable. Qed.
+Print Assumptions C17_split_sort_stable.
+
+(* ---- the caller's table is unchanged (true by construction: tables are values) ---- *)
+Theorem C17_input_unchanged : forall fx sts input, fst (run_on_input fx sts input) = input.
+Proof. exact input_unchanged. Qed.
+Print Assumptions C17_input_unchanged.
+
+(* ---- n/a per operation: remap writes an n/a source as the text n/a; split_rows
+   keeps an n/a onset; set_durations gives n/a to a row without onset (all other
+   n/a cells are covered by the "untouched" clauses above) ---- *)
+Theorem C17_na_remap_source : src_str CNa = s_na.
+Proof. exact src_str_na. Qed.
+Theorem C17_na_split_onset : strict_num CNa = CNa.
+Proof. exact strict_num_na. Qed.
+Theorem C17_na_merge_duration : forall io id r e,
+  get_cell io r = CNa -> id < length r -> get_cell id (set_dur io id r e) = CNa.
+Proof. exact set_dur_no_onset. Qed.
+Print Assumptions C17_na_merge_duration.
 
 (* n/a <-> NaN conversion around every step: n/a cells come back as n/a and no
    other cell changes; a result never contains NaN *)
